@@ -197,6 +197,13 @@ def main(tier, seed):
             cmp('extract_hessian', UTPM.extract_hessian(N, f(UTPM.init_hessian(x))), hess)
             cmp('extract_hessian(int dtype)', UTPM.extract_hessian(N, f(UTPM.init_hessian(x.astype(int)))), hess)
             cmp('extract_hess_vec', UTPM.extract_hess_vec(N, f(UTPM.init_hess_vec(x, v))), [sum(hess[i][j] * F(v[j]) for j in range(N)) for i in range(N)])
+            # integer-typed seed points (the inferred dtype must become float), with non-integer direction vectors
+            xi = x.astype(int); vf = v + 0.5
+            hv_f = [sum(hess[i][j] * F(vf[j]) for j in range(N)) for i in range(N)]
+            cmp('extract_hess_vec(int seed)', UTPM.extract_hess_vec(N, f(UTPM.init_hess_vec(xi, vf))), hv_f)
+            cmp('extract_jac_vec(int seed)', numpy.atleast_1d(UTPM.extract_jac_vec(f(UTPM.init_jac_vec(xi, vf)))).reshape(-1)[:1],
+                [sum(g * F(vi) for g, vi in zip(grad, vf))])
+            cmp('extract_jacobian(int seed)', UTPM.extract_jacobian(f(UTPM.init_jacobian(xi))), grad)
             for d in range(1, dmax + 1):
                 if N > 3 and d > 3:
                     continue
